@@ -7,6 +7,7 @@ mod util;
 mod c01;
 mod c02;
 mod c03;
+mod c04;
 mod c19;
 mod prog;
 
@@ -103,6 +104,7 @@ fn main() {
         "c01" => c01::run(&ctx),
         "c02" => c02::run(&ctx),
         "c03" => c03::run(&ctx),
+        "c04" => c04::run(&ctx),
         "c19" => c19::run(&ctx),
         "c19dump" => c19::dump(&ctx),
         _ => {
@@ -118,6 +120,7 @@ fn roles(args: &[String]) -> i32 {
         Some("c01-sender") => c01::role_sender(&args[1..]),
         Some("c02-sender") => c02::role_sender(&args[1..]),
         Some("c03-holder") => c03::role_holder(&args[1..]),
+        Some("c04-relay") => c04::role_relay(&args[1..]),
         Some("lsfd") => {
             // unrelated child: print inherited descriptors
             for (fd, t) in util::fd_table() {
